@@ -174,6 +174,45 @@ def clone(g):
     return type(g)(**g.params)
 
 
+def euler_contract(pq, gs, conn):
+    """worst violation of the Bloch-Messiah contract by `conn`'s euler on the degenerate-Euler gates of the program:
+    unitary factors, real squeezings, and  blockdiag(U_l, conj U_l) [[cosh r, -sinh r], [-sinh r, cosh r]] blockdiag(U_f, conj U_f) = S"""
+    from piquasso._math.decompositions import euler
+    cfg = pq.Config()
+    worst = 0.0
+    for k, g, m in gs:
+        if k not in DEGENERATE_EULER:
+            continue
+        P = np.asarray(g._get_passive_block(conn, cfg)); A = np.asarray(g._get_active_block(conn, cfg))
+        S = np.block([[P, A], [A.conj(), P.conj()]])
+        ul, sq, uf = [np.asarray(x) for x in euler(S, conn)]
+        bd = lambda U: np.block([[U, 0 * U], [0 * U, U.conj()]])
+        D = np.block([[np.diag(np.cosh(sq)), -np.diag(np.sinh(sq))], [-np.diag(np.sinh(sq)), np.diag(np.cosh(sq))]])
+        n = len(sq)
+        worst = max(worst, float(np.abs(bd(ul) @ D @ bd(uf) - S).max()), float(np.abs(ul @ ul.conj().T - np.eye(n)).max()),
+                    float(np.abs(uf @ uf.conj().T - np.eye(n)).max()), float(np.abs(np.imag(sq)).max()))
+    return worst
+
+
+def explicit_euler(pq, gs):
+    """the gate list with every degenerate-Euler gate written out with NumPy's Bloch-Messiah factors, exactly as
+    fock/pure/simulation_steps `linear` applies it: passive(unitary_first); squeezings; passive(unitary_last)"""
+    from piquasso._math.decompositions import euler
+    conn, cfg = pq.NumpyConnector(), pq.Config()
+    out = []
+    for k, g, m in gs:
+        if k not in DEGENERATE_EULER:
+            out.append((g, m)); continue
+        P = np.asarray(g._get_passive_block(conn, cfg)); A = np.asarray(g._get_active_block(conn, cfg))
+        S = np.block([[P, A], [A.conj(), P.conj()]])
+        u_last, sq, u_first = euler(S, conn)
+        out.append((pq.Interferometer(np.asarray(u_first)), m))
+        for mode, r in zip(m, sq):
+            out.append((pq.Squeezing(r=float(r), phi=0.0), (mode,)))
+        out.append((pq.Interferometer(np.asarray(u_last)), m))
+    return out
+
+
 def purefock(ctx, n):
     import piquasso as pq
     import tensorflow as tf
@@ -218,7 +257,22 @@ def purefock(ctx, n):
             e = float(np.abs(sv - ref).max())
             if e > 1e-8:
                 if degenerate_on_nonvacuum:
-                    # known truncation artefact? it must shrink when the cutoff grows
+                    # known truncation artefact?  (a) with the Bloch-Messiah factors FIXED (NumPy's euler of the gate,
+                    # written out as Interferometer; Squeezing; Squeezing; Interferometer) the connectors agree, so the
+                    # only difference is the connector's choice of basis in the degenerate decomposition; or
+                    # (b) the difference shrinks when the cutoff grows
+                    try:
+                        ex = explicit_euler(pq, gs)
+                        def run_ex(conn):
+                            pr = pq.Program(instructions=[pq.StateVector(tuple(occ)).on_modes(*range(d))] + [clone(g).on_modes(*m) for g, m in ex])
+                            return np.asarray(pq.PureFockSimulator(d=d, config=pq.Config(cutoff=cutoff), connector=conn).execute(pr).state.state_vector)
+                        ref_ex = run_ex(pq.NumpyConnector())
+                        if float(np.abs(ref_ex - ref).max()) <= 1e-8 and euler_contract(pq, gs, mk()) <= 1e-8:
+                            e_ex = float(np.abs(run_ex(mk()) - ref_ex).max())
+                            if e_ex <= 1e-8:
+                                fails.append((KNOWN_TRUNCATION, f"{nm}: state differs from NumPy by {e:.2e} at cutoff {cutoff}, and by {e_ex:.1e} once the Bloch-Messiah factors of Squeezing2 are fixed", desc)); continue
+                    except Exception:
+                        pass
                     try:
                         e2 = float(np.abs(run(mk(), cutoff + 4) - run(pq.NumpyConnector(), cutoff + 4)).max())
                     except Exception:
